@@ -111,7 +111,7 @@ def run(ctx, drv):
             # (iii) save / resume at boundaries
             for k in ([1, 2] if ctx.quick() else [1, 2, 3, 5]):
                 f = os.path.join(tmp, f"state_{ci}_{k}.bin")
-                sv = dict(c, mode="save", budgets=[s * k, s * 3], file=f)
+                sv = dict(c, mode="save", budgets=[s * k, s * 3], file=f, gauss_pending=(k + ci) % 2 == 0)
                 rs = dict(c, mode="resume", budgets=[s * k, s * 3], file=f, scramble=7 + k)
                 futs.append(("save-resume", c, k, ex.submit(lambda sv=sv, rs=rs: (sub(sv, 0), sub(rs, 0)))))
             # (iii-b) algorithms whose state contains lazily maintained structures (adaptive grid bounds / densities, which only
